@@ -24,7 +24,7 @@ MANIFEST_ENTRY = {
                 "in a branch of the bundled typeshed stub — except the recorded finite set K of (module, name) pairs, whose size is pinned "
                 "in Props.lean and each of which is re-confirmed absent on every run."},
     "level_note": "trusted: Lean kernel + {propext, Quot.sound}; translators (harness/src/bin/c27.rs walks the real AST; py/c27_dump_attrs.py, "
-                  "py/c27_typeshed.py; per-module interning in checks/c27.py — intern tables are written to evidence/C27.intern.json and hashed). "
+                  "py/c27_typeshed.py; per-module interning in checks/c27.py — intern tables are written to evidence/aux/C27.intern.json and hashed). "
                   "Attribute *types* and class-body attributes are not covered by the theorem (class bodies are dumped one level deep and "
                   "compared as an observation list only). `known` = union over interpreters and typeshed branches, as the property states.",
     "technique": "Lean 4 decide +kernel over regenerated tables (T-gen); offending rows by set difference, confirmed with erg run",
@@ -123,7 +123,7 @@ def build_gen(t, known, kpairs):
     intern = {}
     L = ["/- GENERATED on every run by checks/c27.py from the working tree (harness `c27 dump`: pystd declarations parsed by erg_parser),",
          "   the installed interpreters 3.7-3.13 (py/c27_dump_attrs.py) and the bundled typeshed stubs (py/c27_typeshed.py). Never edit.",
-         "   Per module: names are interned to Nat ids over (known ∪ declared) in sorted order (full tables: evidence/C27.intern.json);",
+         "   Per module: names are interned to Nat ids over (known ∪ declared) in sorted order (full tables: evidence/aux/C27.intern.json);",
          "   `decls` = ids of the Python names of the top-level public declarations (sorted, distinct), `known` = bitset of the ids that",
          "   are attributes of the module in some interpreter or typeshed branch. -/",
          "namespace ErgVerif.Gen.C27", ""]
@@ -212,7 +212,8 @@ def run(ctx):
     changed = write_if_changed(os.path.join(GEN, "C27.lean"), text)
     os.makedirs(os.path.join(core.VERIF, "evidence"), exist_ok=True)
     itext = json.dumps(intern, sort_keys=True)
-    open(os.path.join(core.VERIF, "evidence", "C27.intern.json"), "w").write(itext)
+    os.makedirs(os.path.join(core.VERIF, "evidence", "aux"), exist_ok=True)
+    open(os.path.join(core.VERIF, "evidence", "aux", "C27.intern.json"), "w").write(itext)
 
     # Python mirror of C27_all
     unmatched = [d for d in t["decls"] if d["py"] not in known[d["module"]]]
@@ -285,7 +286,7 @@ def run(ctx):
     extra = {"axioms": proof["axioms"], "theorems": proof["theorems"], "examples": proof["examples"],
              "gen_tables": {"Gen/C27.lean": {"sha256_16": sha(text), "rewritten": changed, "modules": n_mod, "decl_rows": len(t["decls"]),
                                              "known_names_total": sum(len(v) for v in known.values())},
-                            "evidence/C27.intern.json": {"sha256_16": sha(itext)}},
+                            "evidence/aux/C27.intern.json": {"sha256_16": sha(itext)}},
              "decl_kinds": {k: sum(1 for d in t["decls"] if d["kind"].split(":")[0] == k) for k in ("attr", "renamed", "def", "submodule")},
              "files_with_parse_errors": [f for f in t["files"] if f["status"] != "ok"],
              "import_failures": {v: [m for m, r in py[v]["modules"].items() if not r["ok"]] for v in py},
